@@ -125,6 +125,10 @@ POOLS = {
     "bytes": [b"ab", b"\x07", b"", b"xyz"],
     "decimal": [_dec.Decimal("1.10"), _dec.Decimal("2"), _dec.Decimal("-0.5")],
     "fraction": [_frac.Fraction(1, 3), _frac.Fraction(2, 1), _frac.Fraction(-1, 2)],
+    # record-like cells: a tuple is one element. Only profiles that ask for the kind "tcell" get them:
+    # cells read back from live objects have kind "tuple", which is deliberately *not* a pool (a tuple
+    # inside a row or value list is ambiguous with a nested sequence, which no property defines)
+    "tcell": [TCell((1, 2)), TCell((3, 4)), TCell((1,)), TCell(()), TCell(("a", None)), TCell((2.5, 7)), TCell((3, 4, 5))],
 }
 RARE = {
     "int": [BIG],
@@ -188,6 +192,8 @@ def kind_of(v):
         return "datetime"
     if isinstance(v, _dt.date):
         return "date"
+    if isinstance(v, tuple):
+        return "tuple"
     return type(v).__name__
 
 
